@@ -19,16 +19,26 @@ if [ ! -x "$OUT/drv" ]; then
     tsan) FL="-O1 -g -fsanitize=thread" ;;
     fault) FL="-O0 -g" ;;
     cxx) FL="-O1 -g -fsanitize=address,undefined -fno-sanitize-recover=all -fno-omit-frame-pointer" ;;
+    cxxfault) FL="-O0 -g" ;;
   esac
-  if [ "$V" = cxx ]; then
+  if [ "$V" = cxx ] || [ "$V" = cxxfault ]; then
+    XDEFS="-DDRV_CXX"
+    LDEFS=""
+    if [ "$V" = cxxfault ]; then
+      # allocation faults under the C++ binding: the C sources' own requests are redirected (as in variant fault)
+      XDEFS="-DDRV_CXX -DDRV_FAULT"
+      LDEFS="-Dmalloc=lc_malloc -Dcalloc=lc_calloc -Drealloc=lc_realloc -Dstrdup=lc_strdup"
+    fi
     # C++ variant: drv.c (as C, -DDRV_CXX) + drvxx.cc + libconfigcpp.c++ (as C++), linked with g++
     OBJS=""
-    for f in $SRC "$VERIF/harness/drv.c"; do
+    for f in $SRC; do
       o="$OUT/$(basename $f .c).o"
-      gcc $FL $DEFS -DDRV_CXX -I"$REPO/lib" -c "$f" -o "$o" 2>>"$OUT/build.log" || { cat "$OUT/build.log" >&2; rm -rf "$OUT"; exit 3; }
+      gcc $FL $DEFS $XDEFS $LDEFS -I"$REPO/lib" -c "$f" -o "$o" 2>>"$OUT/build.log" || { cat "$OUT/build.log" >&2; rm -rf "$OUT"; exit 3; }
       OBJS="$OBJS $o"
     done
-    g++ $FL $DEFS -DDRV_CXX -I"$REPO/lib" -c "$VERIF/harness/drvxx.cc" -o "$OUT/drvxx.o" 2>>"$OUT/build.log" || { cat "$OUT/build.log" >&2; rm -rf "$OUT"; exit 3; }
+    gcc $FL $DEFS $XDEFS -I"$REPO/lib" -c "$VERIF/harness/drv.c" -o "$OUT/drv.o" 2>>"$OUT/build.log" || { cat "$OUT/build.log" >&2; rm -rf "$OUT"; exit 3; }
+    OBJS="$OBJS $OUT/drv.o"
+    g++ $FL $DEFS $XDEFS -I"$REPO/lib" -c "$VERIF/harness/drvxx.cc" -o "$OUT/drvxx.o" 2>>"$OUT/build.log" || { cat "$OUT/build.log" >&2; rm -rf "$OUT"; exit 3; }
     g++ $FL $DEFS -x c++ -I"$REPO/lib" -c "$REPO/lib/libconfigcpp.c++" -o "$OUT/libconfigcpp.o" 2>>"$OUT/build.log" || { cat "$OUT/build.log" >&2; rm -rf "$OUT"; exit 3; }
     g++ $FL -o "$OUT/drv.tmp" $OBJS "$OUT/drvxx.o" "$OUT/libconfigcpp.o" -lpthread -Wl,--wrap=fopen,--wrap=fclose,--wrap=fsync 2>>"$OUT/build.log" || { cat "$OUT/build.log" >&2; rm -rf "$OUT"; exit 3; }
     mv "$OUT/drv.tmp" "$OUT/drv"
